@@ -38,6 +38,8 @@ def strategy(draw, cells):
     # permeate values far from equilibrium so that the VALID single-condition variants return (construction, not rejection)
     c["perm"] = {"mode": "temperature", "T": draw(gen.uniform(200.0, c["T"] - 40.0)), "p": None}
     c["pp_both"] = draw(st.one_of(st.just(0.0), gen.loguniform(1e-4, 1e-2), gen.loguniform(1e-4, 1e-2)))  # 0 kPa IS a stated pressure
+    c["numtype"] = draw(st.sampled_from(["float", "float", "numpy.float64", "numpy.float32", "int"]))  # type of the two permeate values
+    c["reuse"] = draw(st.booleans())  # process entries: the SAME Conditions object, made contradictory after a valid run
     c["lone"] = draw(st.integers(1, 2))  # which component has the single experiment without Ea (listed first or after the other)
     c["x"] = draw(gen.uniform(0.15, 0.85))
     if cls not in ("both-permeate",) and draw(st.integers(0, 3)) == 0:
@@ -48,10 +50,22 @@ def strategy(draw, cells):
     return c
 
 
-def _proc(case, s, kind, tp, pp, mdl, pv=None, dt=None):
+def _num(v, numtype):
+    if v is None or numtype == "float":
+        return v
+    import numpy
+
+    if numtype == "numpy.float64":
+        return numpy.float64(v)
+    if numtype == "numpy.float32":
+        return numpy.float32(v)
+    return int(round(v)) if v >= 1 else v
+
+
+def _proc(case, s, kind, tp, pp, mdl, pv=None, dt=None, cond=None):
     if dt is None:
         dt = case.get("_dt") or 1e-6
-    cond = build.conditions({"area": case["area"], "T": case["T"], "amount": case["amount"], "x": s.x, "basis": s.basis, "Tp": tp, "pp": pp})
+    cond = cond or build.conditions({"area": case["area"], "T": case["T"], "amount": case["amount"], "x": s.x, "basis": s.basis, "Tp": tp, "pp": pp})
     pv = pv or s.pv
     if kind == "ideal-iso":
         return call(pv.ideal_isothermal_process, case["steps"], dt, cond, case["precision"], mdl)
@@ -122,11 +136,24 @@ def check(case):
                 vac = dict(case, perm={"mode": "vacuum", "T": None, "p": None})
                 case = dict(case, _dt=procs.step_length(vac, s))
             if cls == "both-permeate":
+                nt = case.get("numtype", "float")
+                tp, pp_both = _num(tp, nt), _num(pp_both, nt)
+                classes.append("numtype=" + nt)
                 v1 = _entry(case, s, entry, tp, None, mdl)
                 v2 = _entry(case, s, entry, None, pp_both, mdl)
                 if is_raised(v1) or is_raised(v2):
                     raise Discard("valid variant raised")
-                bad = _entry(case, s, entry, tp, pp_both, mdl)
+                if entry in procs.KINDS and case.get("reuse"):
+                    # one Conditions object: valid run first, then the other permeate value is set on the same object
+                    cond = build.conditions({"area": case["area"], "T": case["T"], "amount": case["amount"], "x": s.x, "basis": s.basis, "Tp": tp, "pp": None})
+                    first = _proc(case, s, entry, tp, None, mdl, cond=cond)
+                    if is_raised(first):
+                        raise Discard("valid variant raised")
+                    cond.permeate_pressure = pp_both
+                    bad = _proc(case, s, entry, tp, pp_both, mdl, cond=cond)
+                    classes.append("conditions-object-reused")
+                else:
+                    bad = _entry(case, s, entry, tp, pp_both, mdl)
                 _rejected(bad, "%s with both a permeate temperature (%r K) and a permeate pressure (%r kPa)" % (entry, tp, pp_both))
             elif cls == "mixture-without-parameters":
                 ok = call(build.Mixture, name="X", first_component=s.mix.first_component, second_component=s.mix.second_component,
